@@ -1084,6 +1084,288 @@ Lemma confirmed_resolves known :
 Proof. destruct known; cbn; eauto. Qed.
 
 (* ------------------------------------------------------------------------------------------ *)
+(* 4b. A kill after the files were removed (window W3)                                         *)
+(* ------------------------------------------------------------------------------------------ *)
+Lemma filter_id {A} (p : A -> bool) l : (forall x, In x l -> p x = true) -> filter p l = l.
+Proof.
+  induction l as [|x l IH]; intros H; [reflexivity|]. cbn [filter]. rewrite (H x (or_introl eq_refl)).
+  f_equal. apply IH. intros y Hy. apply H. right. exact Hy.
+Qed.
+
+Lemma mem_str_In x l : mem_str x l = true <-> In x l.
+Proof.
+  unfold mem_str. rewrite existsb_exists. split.
+  - intros [y [Hy E]]. apply str_eqb_eq in E. subst. exact Hy.
+  - intros H. exists x. split; [exact H | apply str_eqb_refl].
+Qed.
+
+(* removal on the abstract disk *)
+Lemma remove_one_absent d e : ~ In (fst e) (disk_paths d) -> remove_one d e = d.
+Proof.
+  intros H. unfold remove_one.
+  assert (Hall : forall x, In x d -> negb (str_eqb (fst x) (fst e)) = true).
+  { intros x Hx. destruct (str_eqb (fst x) (fst e)) eqn:E; [|reflexivity]. exfalso. apply H.
+    apply str_eqb_eq in E. rewrite <- E. unfold disk_paths. apply in_map. exact Hx. }
+  destruct (snd e) as [h|].
+  - unfold disk_get. destruct (find (fun x => str_eqb (fst x) (fst e)) d) as [x|] eqn:Ef; [|reflexivity].
+    apply find_some in Ef. destruct Ef as [Hx E]. specialize (Hall x Hx). rewrite E in Hall. discriminate.
+  - unfold disk_remove. apply filter_id. exact Hall.
+Qed.
+
+Lemma remove_one_paths d e p : In p (disk_paths (remove_one d e)) -> In p (disk_paths d).
+Proof.
+  unfold remove_one. destruct (snd e) as [h|].
+  - destruct (disk_get (fst e) d) as [h'|]; [|auto]. destruct (h =? h'); [|auto].
+    unfold disk_paths, disk_remove. intros H. apply in_map_iff in H. destruct H as [x [E Hx]].
+    apply filter_In in Hx. subst. apply in_map. apply Hx.
+  - unfold disk_paths, disk_remove. intros H. apply in_map_iff in H. destruct H as [x [E Hx]].
+    apply filter_In in Hx. subst. apply in_map. apply Hx.
+Qed.
+
+Lemma remove_deletable_paths q : forall d p, In p (disk_paths (remove_deletable q d)) -> In p (disk_paths d).
+Proof.
+  induction q as [|e q IH]; intros d p H; [exact H|]. unfold remove_deletable in *. cbn [fold_left] in H.
+  apply IH in H. eapply remove_one_paths. exact H.
+Qed.
+
+Lemma remove_deletable_absent q : forall d, (forall e, In e q -> ~ In (fst e) (disk_paths d)) -> remove_deletable q d = d.
+Proof.
+  induction q as [|e q IH]; intros d H; [reflexivity|]. unfold remove_deletable in *. cbn [fold_left].
+  rewrite remove_one_absent; [|apply H; left; reflexivity]. apply IH. intros e' He'. apply H. right. exact He'.
+Qed.
+
+Lemma remove_volatile_gone q : forall d p, In (p, None) q -> ~ In p (disk_paths (remove_deletable q d)).
+Proof.
+  induction q as [|e q IH]; intros d p Hin; [destruct Hin|]. unfold remove_deletable in *. cbn [fold_left].
+  destruct Hin as [E|Hin]; [|apply IH; exact Hin]. subst e. intros H. apply remove_deletable_paths in H.
+  unfold remove_one in H. cbn [fst snd] in H. unfold disk_paths, disk_remove in H.
+  apply in_map_iff in H. destruct H as [x [E Hx]]. apply filter_In in Hx. destruct Hx as [_ Hx].
+  rewrite E, str_eqb_refl in Hx. discriminate.
+Qed.
+
+(* revert_optional_steps *)
+Definition opt_out (opt : list str) (s : st) (l : str) : bool :=
+  existsb (fun o => mem_str l (file_sinks_of_step o s)) opt.
+Definition Tr (opt : list str) (s : st) (r r' : frow) : Prop :=
+  fl r' = fl r /\ (fstt r' = fstt r \/ fstt r' = FPlanned).
+
+Lemma set_planned_spec l s s' : set_fstate_hash l FPlanned (Some None) s = Ok s' ->
+  nodes s' = nodes s /\ deps s' = deps s /\
+  files s' = map (fun r => if str_eqb (fl r) l then mkF (fl r) FPlanned None else r) (files s).
+Proof.
+  unfold set_fstate_hash. destruct (find_file l s) as [r0|] eqn:E.
+  - cbn [needs_hash andb clears_hash fstate_eqb fstate_code N.eqb Pos.eqb]. intros H. inversion H. subst s'.
+    repeat split; reflexivity.
+  - intros H. inversion H. subst s'. repeat split; try reflexivity. symmetry.
+    rewrite <- (map_id (files s)) at 2. apply map_ext_in. intros r Hr.
+    unfold find_file in E. apply (find_none _ _ E) in Hr. rewrite Hr. reflexivity.
+Qed.
+
+Definition is_bo (f : fstate) : bool := match f with FBuilt | FOutdated => true | _ => false end.
+
+Lemma planned_sweep L : forall s s',
+  foldM (fun s r => match fstt r with
+                    | FBuilt | FOutdated => set_fstate_hash (fl r) FPlanned (Some None) s
+                    | _ => Ok s end) L s = Ok s' ->
+  nodes s' = nodes s /\ deps s' = deps s /\
+  Forall2 (fun r r' => fl r' = fl r /\ (fstt r' = fstt r \/ fstt r' = FPlanned)) (files s) (files s') /\
+  forall (P : str -> Prop),
+    (forall c, In c (files s) -> P (fl c) -> is_bo (fstt c) = true ->
+               exists r, In r L /\ fl r = fl c /\ is_bo (fstt r) = true) ->
+    forall c, In c (files s') -> P (fl c) -> is_bo (fstt c) = false.
+Proof.
+  induction L as [|r L IH]; intros s s' H; cbn [foldM] in H.
+  - inversion H. subst s'. repeat split; try reflexivity.
+    + apply Forall2_refl. intros x. split; [reflexivity | left; reflexivity].
+    + intros P Hcov c Hc HP. destruct (is_bo (fstt c)) eqn:E; [|reflexivity].
+      destruct (Hcov c Hc HP E) as [r [[] _]].
+  - apply bind_ok in H. destruct H as [s1 [H1 H2]]. apply IH in H2. destruct H2 as [N2 [D2 [F2 C2]]].
+    assert (Hstep : nodes s1 = nodes s /\ deps s1 = deps s /\
+              files s1 = map (fun x => if is_bo (fstt r) && str_eqb (fl x) (fl r) then mkF (fl x) FPlanned None else x) (files s)).
+    { destruct (fstt r) eqn:Er; cbn [is_bo andb];
+        try (inversion H1; subst s1; repeat split; try reflexivity; symmetry; apply map_id).
+      - apply set_planned_spec in H1. exact H1.
+      - apply set_planned_spec in H1. exact H1. }
+    destruct Hstep as [N1 [D1 F1]]. split; [congruence|]. split; [congruence|]. split.
+    + eapply Forall2_trans; [| |exact F2].
+      * intros a b c [Hl1 Hs1] [Hl2 Hs2]. split; [congruence|]. destruct Hs2 as [Hs2|Hs2]; [|right; exact Hs2].
+        destruct Hs1 as [Hs1|Hs1]; [left | right]; congruence.
+      * rewrite F1. apply Forall2_map_r. intros x. destruct (is_bo (fstt r) && str_eqb (fl x) (fl r)).
+        -- split; [reflexivity | right; reflexivity].
+        -- split; [reflexivity | left; reflexivity].
+    + intros P Hcov. apply (C2 P). intros c Hc HP Hbo. rewrite F1 in Hc. apply in_map_iff in Hc.
+      destruct Hc as [x [Ex Hx]]. destruct (is_bo (fstt r) && str_eqb (fl x) (fl r)) eqn:Eb.
+      * subst c. cbn in Hbo. discriminate.
+      * subst c. destruct (Hcov x Hx HP Hbo) as [r0 [[Hr0|Hr0] [Hl0 Hb0]]].
+        -- subst r0. rewrite Hb0, Hl0, str_eqb_refl in Eb. discriminate.
+        -- exists r0. repeat split; assumption.
+Qed.
+
+Lemma set_sstate_raw_files l new s s' : set_sstate_raw l new s = Ok s' -> files s' = files s.
+Proof.
+  unfold set_sstate_raw, set_sstate. destruct (find_step l s) as [r|]; [|intros H; inversion H; reflexivity].
+  destruct (_ && _); [discriminate|]. intros H. inversion H. reflexivity.
+Qed.
+
+Lemma revert_optional_spec opt s s' q : revert_optional opt s = Ok (s', q) ->
+  nodes s' = nodes s /\ deps s' = deps s /\ q = omap queue_entry (optional_outputs opt s) /\
+  Forall2 (fun r r' => fl r' = fl r /\ (fstt r' = fstt r \/ fstt r' = FPlanned)) (files s) (files s') /\
+  forall c, In c (files s') -> opt_out opt s (fl c) = true -> is_bo (fstt c) = false.
+Proof.
+  unfold revert_optional. intros H. apply bind_ok in H. destruct H as [s1 [H1 H]].
+  apply bind_ok in H. destruct H as [s2 [H2 H]]. inversion H. subst s2 q. clear H.
+  assert (F1 : frame s s1 /\ files s1 = files s).
+  { clear H2. revert s s1 H1. induction opt as [|o opt IH]; intros s s1 H1; cbn [foldM] in H1.
+    - inversion H1. subst. split; [apply frame_refl | reflexivity].
+    - apply bind_ok in H1. destruct H1 as [sa [Ha Hb]]. apply IH in Hb. destruct Hb as [Fb Eb].
+      assert (Fa : frame s sa /\ files sa = files s).
+      { destruct (sstate_of o s) as [[]|]; try (inversion Ha; subst; split; [apply frame_refl | reflexivity]);
+          (split; [apply set_sstate_raw_spec in Ha; apply Ha | eapply set_sstate_raw_files; exact Ha]). }
+      destruct Fa as [Fa Ea]. split; [eapply frame_trans; eassumption | congruence]. }
+  destruct F1 as [[N1 D1 _ _] E1].
+  pose proof (planned_sweep _ _ _ H2) as [N2 [D2 [F2 C2]]].
+  split; [congruence|]. split; [congruence|]. split; [reflexivity|]. split; [rewrite <- E1; exact F2|].
+  intros c Hc Hopt. apply (C2 (fun l => opt_out opt s l = true)); [|exact Hc | exact Hopt].
+  intros c0 Hc0 HP Hbo. rewrite E1 in Hc0. exists c0. split; [|split; [reflexivity | exact Hbo]].
+  unfold optional_outputs. apply filter_In. split; [exact Hc0 | exact HP].
+Qed.
+
+(* delete_detached *)
+Lemma filter_length_lt' {A} (p : A -> bool) l x : In x l -> p x = false -> (length (filter p l) < length l)%nat.
+Proof.
+  induction l as [|y l IH]; intros Hin Hp; [destruct Hin|]. cbn [filter length].
+  assert (Hle : (length (filter p l) <= length l)%nat).
+  { clear. induction l as [|z l IH]; [apply le_n|]. cbn [filter length]. destruct (p z); cbn [length]; lia. }
+  destruct Hin as [E|Hin].
+  - subst y. rewrite Hp. lia.
+  - specialize (IH Hin Hp). destruct (p y); cbn [length]; lia.
+Qed.
+
+Lemma delete_node_spec k s :
+  incl (files (delete_node k s)) (files s) /\ incl (deps (delete_node k s)) (deps s) /\
+  nodes (delete_node k s) = filter (fun n => negb (key_eqb (nk n) k)) (nodes s).
+Proof.
+  assert (Hd : incl (deps (del_all_sources k s)) (deps s)).
+  { unfold del_all_sources, del_deps_where. cbn. intros x Hx. apply filter_In in Hx. apply Hx. }
+  unfold delete_node. destruct (fst k); cbn; repeat split; try exact Hd; try (apply incl_refl);
+    intros x Hx; apply filter_In in Hx; apply Hx.
+Qed.
+
+Lemma dd_loop_spec fuel : forall lost s s' lost', dd_loop fuel lost s = (s', lost') ->
+  (length (nodes s) <= fuel)%nat ->
+  incl (files s') (files s) /\ incl (deps s') (deps s) /\ find (fun n => deletable n s') (nodes s') = None.
+Proof.
+  induction fuel as [|fuel IH]; intros lost s s' lost' H Hlen; cbn [dd_loop] in H.
+  - inversion H. subst. repeat split; try apply incl_refl.
+    destruct (nodes s'); [reflexivity | cbn in Hlen; lia].
+  - destruct (find (fun n => deletable n s) (nodes s)) as [n|] eqn:Ef.
+    + destruct (delete_node_spec (nk n) s) as [Hf [Hd Hn]].
+      apply IH in H.
+      * destruct H as [H1 [H2 H3]]. repeat split; [| |exact H3].
+        -- eapply incl_tran; eassumption.
+        -- eapply incl_tran; eassumption.
+      * rewrite Hn. apply find_some in Ef. destruct Ef as [Hin _].
+        pose proof (filter_length_lt' (fun m => negb (key_eqb (nk m) (nk n))) (nodes s) n Hin) as Hlt.
+        cbv beta in Hlt. rewrite key_eqb_refl in Hlt. specialize (Hlt eq_refl). lia.
+    + inversion H. subst. repeat split; try apply incl_refl. exact Ef.
+Qed.
+
+Lemma deletable_ext n a b : nodes a = nodes b -> deps a = deps b -> deletable n a = deletable n b.
+Proof. intros Hn Hd. unfold deletable, products. rewrite Hn, Hd. reflexivity. Qed.
+
+Lemma find_ext' {A} (p q : A -> bool) l : (forall x, p x = q x) -> find p l = find q l.
+Proof. intros H. induction l as [|x l IH]; [reflexivity|]. cbn [find]. rewrite H, IH. reflexivity. Qed.
+
+Lemma settled_ext a b : nodes a = nodes b -> deps a = deps b ->
+  find (fun n => deletable n a) (nodes a) = None -> find (fun n => deletable n b) (nodes b) = None.
+Proof.
+  intros Hn Hd H. rewrite <- Hn. rewrite <- H. apply find_ext'. intros x. symmetry. apply deletable_ext; assumption.
+Qed.
+
+Lemma alp_fold L : forall s s',
+  foldM (fun s c => match find_node c s with Some _ => after_lost_product c s | None => Ok s end) L s = Ok s' ->
+  nodes s' = nodes s /\ deps s' = deps s /\ files s' = files s.
+Proof.
+  induction L as [|c L IH]; intros s s' H; cbn [foldM] in H.
+  - inversion H. repeat split; reflexivity.
+  - apply bind_ok in H. destruct H as [s1 [H1 H2]]. apply IH in H2. destruct H2 as [A [B C]].
+    assert (X : nodes s1 = nodes s /\ deps s1 = deps s /\ files s1 = files s).
+    { destruct (find_node c s); [|inversion H1; repeat split; reflexivity].
+      unfold after_lost_product in H1. destruct (fst c); try discriminate; inversion H1; repeat split; reflexivity. }
+    destruct X as [A1 [B1 C1]]. repeat split; congruence.
+Qed.
+
+Lemma delete_detached_spec s s' : delete_detached s = Ok s' ->
+  incl (files s') (files s) /\ incl (deps s') (deps s) /\ find (fun n => deletable n s') (nodes s') = None.
+Proof.
+  unfold delete_detached. destruct (dd_loop (length (nodes s)) [] s) as [s1 lost] eqn:E. cbn [fst snd].
+  intros H. apply alp_fold in H. destruct H as [A [B C]].
+  apply dd_loop_spec in E; [|apply le_n]. destruct E as [E1 [E2 E3]].
+  rewrite C, B. repeat split; try assumption. eapply settled_ext; [symmetry; exact A | symmetry; exact B | exact E3].
+Qed.
+
+Lemma delete_detached_q_settled s s' q :
+  find (fun n => deletable n s) (nodes s) = None -> delete_detached_q s = Ok (s', q) -> q = [].
+Proof.
+  intros Hs H. unfold delete_detached_q in H. apply bind_ok in H. destruct H as [s1 [H1 H2]].
+  inversion H2. subst s1 q. clear H2.
+  assert (E : s' = s).
+  { unfold delete_detached in H1. destruct (length (nodes s)); cbn [dd_loop] in H1; [|rewrite Hs in H1];
+      cbn [fst snd foldM] in H1; inversion H1; reflexivity. }
+  subst s'. unfold deleted_files. rewrite filter_nil; [reflexivity|]. intros r Hr.
+  unfold find_file. destruct (find (fun r0 => str_eqb (fl r0) (fl r)) (files s)) eqn:Ef; [reflexivity|].
+  apply (find_none _ _ Ef) in Hr. rewrite str_eqb_refl in Hr. discriminate.
+Qed.
+
+Lemma omap_In_conv {A B} (f : A -> option B) l x y : In x l -> f x = Some y -> In y (omap f l).
+Proof.
+  induction l as [|z l IH]; intros Hin Hf; [destruct Hin|]. cbn [omap]. destruct Hin as [E|Hin].
+  - subst z. rewrite Hf. left. reflexivity.
+  - destruct (f z); [right|]; apply IH; assumption.
+Qed.
+
+Lemma opt_out_incl opt a b l : incl (deps a) (deps b) -> opt_out opt a l = true -> opt_out opt b l = true.
+Proof.
+  intros Hi. unfold opt_out. rewrite !existsb_exists. intros [o [Ho H]]. exists o. split; [exact Ho|].
+  apply mem_str_In in H. apply mem_str_In. unfold file_sinks_of_step, sinks_of in *.
+  apply in_map_iff in H. destruct H as [k [Ek Hk]]. apply in_map_iff. exists k. split; [exact Ek|].
+  apply filter_In in Hk. destruct Hk as [Hk Hkind]. apply filter_In. split; [|exact Hkind].
+  apply in_map_iff in Hk. destruct Hk as [d [Ed Hd]]. apply in_map_iff. exists d. split; [exact Ed|].
+  apply filter_In in Hd. destruct Hd as [Hd Hsrc]. apply filter_In. split; [apply Hi; exact Hd | exact Hsrc].
+Qed.
+
+(* A kill after the cleanup finished (the files are removed, build_completed not yet committed):
+   the restarted cleanup finds nothing more to remove.  For ALL states and disks. *)
+Theorem crash_no_orphans_W3 opt x : no_orphans_at W3 opt x.
+Proof.
+  unfold no_orphans_at, crash_then_restart, cleanup. intros y z H1 H2. rewrite H1 in H2. cbn [bind] in H2.
+  cbn [cleanup_until] in H1, H2.
+  apply bind_ok in H1. destruct H1 as [[s1 q1] [R1 H1]]. apply bind_ok in H1. destruct H1 as [[s2 q2] [D1 H1]].
+  cbn [fst snd] in *. inversion H1. subst y. clear H1. cbn [g dk] in H2.
+  apply bind_ok in H2. destruct H2 as [[s3 q3] [R2 H2]]. apply bind_ok in H2. destruct H2 as [[s4 q4] [D2 H2]].
+  cbn [fst snd] in *. inversion H2. subst z. clear H2. cbn [dk].
+  apply revert_optional_spec in R1. destruct R1 as [N1 [Dp1 [Q1 [F1 C1]]]].
+  pose proof D1 as D1'. unfold delete_detached_q in D1'. apply bind_ok in D1'. destruct D1' as [s2' [D1' E]].
+  inversion E. subst s2'. clear E. apply delete_detached_spec in D1'. destruct D1' as [If [Id Hset]].
+  apply revert_optional_spec in R2. destruct R2 as [N2 [Dp2 [Q2 [F2 C2]]]].
+  assert (Q4 : q4 = []).
+  { eapply delete_detached_q_settled; [|exact D2]. eapply settled_ext; [symmetry; exact N2 | symmetry; exact Dp2 | exact Hset]. }
+  subst q4. rewrite app_nil_r. rewrite remove_deletable_absent; [apply same_paths_refl|].
+  intros e He. rewrite Q2 in He. apply omap_In in He. destruct He as [r' [Hr' Hq]].
+  unfold optional_outputs in Hr'. apply filter_In in Hr'. destruct Hr' as [Hin2 Hopt2].
+  assert (Hopt : opt_out opt (g x) (fl r') = true).
+  { apply (opt_out_incl opt s1); [rewrite Dp1; apply incl_refl|]. apply (opt_out_incl opt s2); [exact Id | exact Hopt2]. }
+  pose proof (C1 r' (If _ Hin2) Hopt) as Hbo.
+  unfold queue_entry in Hq. destruct (fstt r') eqn:Es; try discriminate; try (cbn in Hbo; discriminate).
+  inversion Hq. subst e. cbn [fst]. clear Hq.
+  destruct (Forall2_In_r _ _ _ _ F1 (If _ Hin2)) as [r [Hr [Hl Hst]]].
+  assert (Hv : fstt r = FVolatile) by (destruct Hst as [Hst|Hst]; congruence).
+  apply remove_volatile_gone. apply in_or_app. left. rewrite Q1.
+  apply (omap_In_conv queue_entry _ r); [|unfold queue_entry; rewrite Hv, Hl; reflexivity].
+  unfold optional_outputs. apply filter_In. split; [exact Hr|]. rewrite <- Hl. exact Hopt.
+Qed.
+
+(* ------------------------------------------------------------------------------------------ *)
 (* Statements in the form used by props/C05.v                                                  *)
 (* ------------------------------------------------------------------------------------------ *)
 Lemma source_structure :
